@@ -18,10 +18,12 @@ IsPrefixSeq(a, b) == Len(a) <= Len(b) /\ SubSeq(b, 1, Len(a)) = a
 \* s1 / s2: two files of one package in different directories; a message moves from s2 (previous) to s1
 \* (current), so a breaking annotation on it has its location in s1 and its against-location in s2
 FilePath == [x |-> <<"dira", "x.proto">>, y |-> <<"dira", "sub", "y.proto">>, z |-> <<"dirb", "z.proto">>, imp |-> <<"imp", "i.proto">>,
+             \* imp2: a second import-only file; it declares the package of x (with another java_package, in another directory)
+             imp2 |-> <<"imp", "j.proto">>,
              s1 |-> <<"dira", "s1.proto">>, s2 |-> <<"dirb", "s2.proto">>]
 AgainstOf(f) == IF f = "s1" THEN {"s1", "s2"} ELSE {f}
 FileIds == DOMAIN FilePath
-IsImportOnly(f) == f = "imp"
+IsImportOnly(f) == f \in {"imp", "imp2"}
 IgnorePathPool == {<<"dira">>, <<"dira", "sub", "y.proto">>, <<"dirb">>, <<"dir">>}
 
 RulesOf(k) == Tables[k]
@@ -87,13 +89,14 @@ SuppressedW(ior, r, f, c, a) ==
   \/ (IsLint(kind) /\ IsImportOnly(f))
   \/ (~IsLint(kind) /\ excludeImports /\ IsImportOnly(f))
   \/ SuppressedAtW(ior, r, f) \/ SuppressedAtW(ior, r, a)
-  \/ (c /\ allowComments /\ r \in {"FIELD_LOWER_SNAKE_CASE", "COMMENT_FIELD"})
+  \* (the commented places: a message, and the go_package option statement of s1 / s2)
+  \/ (c /\ allowComments /\ r \in {"FIELD_LOWER_SNAKE_CASE", "COMMENT_FIELD", "PACKAGE_SAME_GO_PACKAGE"})
 Places == UNION {{[file |-> f, commented |-> c, against |-> a] : c \in BOOLEAN, a \in AgainstOf(f)} : f \in FileIds}
 Suppressed(r, f, c, a) == SuppressedW(IgnoreOnlyRules, r, f, c, a)
 AnnotationsOf(R) == UNION {{[rule |-> r, file |-> p.file, commented |-> p.commented, against |-> p.against] : r \in R} : p \in Places}
 Annotations == AnnotationsOf(Selected)
 \* only these rules can be suppressed on their own account
-RuleSpecific == Selected \cap (IgnoreOnlyRules \cup {"FIELD_SAME_CARDINALITY", "FIELD_LOWER_SNAKE_CASE", "COMMENT_FIELD"})
+RuleSpecific == Selected \cap (IgnoreOnlyRules \cup {"FIELD_SAME_CARDINALITY", "FIELD_LOWER_SNAKE_CASE", "COMMENT_FIELD", "PACKAGE_SAME_GO_PACKAGE"})
 Reported == LET ior == IgnoreOnlyRules  sel == Selected IN
             {t \in AnnotationsOf(sel) : ~SuppressedW(ior, t.rule, t.file, t.commented, t.against)}
 
@@ -118,7 +121,7 @@ EmitCase == Emit => PrintT(<<"CASE", ToJson([kind |-> kind, use |-> use, except 
    supAll |-> IF ConfigError \/ EmptySelection THEN {} ELSE LET ior == IgnoreOnlyRules  sel == Selected IN
               {p \in Places : \A r \in sel : SuppressedW(ior, r, p.file, p.commented, p.against)},
    supRule |-> IF ConfigError \/ EmptySelection THEN {} ELSE LET ior == IgnoreOnlyRules  sel == Selected IN
-              {t \in AnnotationsOf(sel \cap (ior \cup {"FIELD_SAME_CARDINALITY", "FIELD_LOWER_SNAKE_CASE", "COMMENT_FIELD"})) :
+              {t \in AnnotationsOf(sel \cap (ior \cup {"FIELD_SAME_CARDINALITY", "FIELD_LOWER_SNAKE_CASE", "COMMENT_FIELD", "PACKAGE_SAME_GO_PACKAGE"})) :
                     SuppressedW(ior, t.rule, t.file, t.commented, t.against)
                     /\ \E r2 \in sel : ~SuppressedW(ior, r2, t.file, t.commented, t.against)}])>>)
 =============================================================================
